@@ -28,6 +28,28 @@ pub fn set_hook(hook: Option<Hook>) {
     *guard = hook;
 }
 
+thread_local! {
+    static CURRENT_QUERY: std::cell::Cell<Option<crate::query::QueryID>> =
+        const { std::cell::Cell::new(None) };
+}
+
+/// Reports that the point `label` was reached on behalf of query `id`; the
+/// callback can read the query with [`current_query`].
+pub fn point_query(label: &'static str, id: &crate::query::QueryID) {
+    if !INSTALLED.load(Ordering::Relaxed) {
+        return;
+    }
+
+    CURRENT_QUERY.with(|c| c.set(Some(*id)));
+    point(label);
+}
+
+/// The query of the last [`point_query`] call of this thread.
+#[must_use]
+pub fn current_query() -> Option<crate::query::QueryID> {
+    CURRENT_QUERY.with(std::cell::Cell::get)
+}
+
 /// Reports that the point `label` was reached.
 pub fn point(label: &'static str) {
     if !INSTALLED.load(Ordering::Relaxed) {
